@@ -343,7 +343,24 @@ fn write_evidence(prop: &str, sp: &Spec, tier: &str, seed: u64, t: &WorkerReport
         "fault_enumeration" => (t.counters.crash_images + t.counters.power_images + t.counters.err_sites + t.counters.damaged_opens + t.counters.forged_opens).max(t.runs),
         _ => if t.counters.schedules > 0 { t.counters.schedules } else { t.runs },
     };
-    let probes = serde_json::to_value(&t.probes).unwrap();
+    let mut probes = serde_json::to_value(&t.probes).unwrap();
+    if sp.build == "conc" {
+        // concurrent build: named rare conditions, counted from the calls issued by tasks inside the
+        // concurrent window (task > 0) and from the scheduler
+        let g = |k: &str| t.site_counts.get(k).copied().unwrap_or(0);
+        let mut m = serde_json::Map::new();
+        m.insert("commits-in-window (rename staging->cas by a task)".into(), serde_json::json!(g("task:rename:staging")));
+        m.insert("blob-unlinks-in-window".into(), serde_json::json!(g("task:unlink:cas")));
+        m.insert("checkpoints-in-window (snapshot renamed by a task: roll-over or explicit)".into(), serde_json::json!(g("task:rename:snapshot-tmp")));
+        m.insert("segment-prunes-in-window".into(), serde_json::json!(g("task:unlink:wal")));
+        m.insert("reader-lost-race-to-unlink (open of a cas file failed with ENOENT, retried)".into(), serde_json::json!(g("task:open-r:cas:errno2")));
+        m.insert("orphan-quarantined-in-window".into(), serde_json::json!(g("task:rename:cas")));
+        m.insert("losing-opens (flock refused)".into(), serde_json::json!(g("task:flock:lock:errno11")));
+        for k in t.site_counts.keys().filter(|k| k.starts_with("probe:")) {
+            m.insert(k["probe:".len()..].to_string(), serde_json::json!(g(k)));
+        }
+        probes = serde_json::Value::Object(m);
+    }
     let zero: Vec<&String> = probes.as_object().unwrap().iter().filter(|(_, v)| v.as_u64() == Some(0)).map(|(k, _)| k).collect();
     let ev = serde_json::json!({
         "property_id": prop,
@@ -362,7 +379,7 @@ fn write_evidence(prop: &str, sp: &Spec, tier: &str, seed: u64, t: &WorkerReport
             "logical_steps": t.counters.events,
             "counters": t.counters,
             "faults_fired": t.faults,
-            "reach_probes": t.probes,
+            "reach_probes": probes,
             "probes_at_zero": zero,
             "call_sites": t.site_counts,
             "workers": workers,
